@@ -5,12 +5,14 @@ SCEN = ["stage", "upload", "save", "store2store"]
 
 def cubes(tier):
     if tier == "quick":
-        return [dict(scenario=s, cls="local", lo=lo, hi=lo + 20, _w=2) for s in SCEN for lo in (0, 20, 40)]
+        return [dict(scenario=s, cls="local", lo=lo, hi=lo + 20, _w=2) for s in SCEN for lo in (0, 20, 40)] + \
+               [dict(scenario=s, cls="local", lo=lo, hi=lo + 30, interrupt=True, _w=2) for s in SCEN for lo in (0, 30)]
     out = []
     for shape in ([1, 1, 1, 0], [1, 1, 1, 1], [1, 0, 0, 1], [0, 1, 0, 0]):
         for s in SCEN:
             for c in ("local",):
                 out += [dict(scenario=s, cls=c, lo=lo, hi=lo + 20, shape=shape, _w=2) for lo in (0, 20, 40)]
+                out += [dict(scenario=s, cls=c, lo=lo, hi=lo + 30, shape=shape, interrupt=True, _w=2) for lo in (0, 30)]
     return out
 
 
@@ -27,7 +29,9 @@ SPEC = Spec(
           encodes="build.build/_build_tree/_build_files/_upload_file, HashFileDB.add/check/protect, LocalHashFileDB.protect/check/oids_exist, "
                   "transfer.transfer/_do_transfer/_add, State.save_many/get_many, index.save.save/_save_dir_entry, add_update_tree, "
                   "dvc_objects generic.transfer/_put/_get/as_atomic and ObjectDB.add on the model fs",
-          stubs=("model filesystem with a mutation log; process death = Crash(BaseException) at the k-th primitive, model frozen afterwards",
+          stubs=("model filesystem with a mutation log; process death = Crash(BaseException) at the k-th primitive, model frozen afterwards "
+                 "(kill); `interrupt` cubes: same exception but the model stays live while the stack unwinds (death by SIGINT/KeyboardInterrupt: "
+                 "finally blocks and BaseException handlers still act)",
                  "create/truncate and content write are separate crash points", "state table commit is one atomic crash point (SQLite transaction)")),
     ],
     assumptions=["rename is atomic; a single write primitive is all-or-nothing (torn writes inside one write are outside the model)",
